@@ -153,18 +153,24 @@ class Machine:
         n = self.n_candles() * 6
         if self.kind == "indicator":
             return self.run.call(n, self.subject.calculate)
+        if slot is not None and (self.cfg.get("hexital") or {}).get("via_member"):
+            return self.run.call(n, slot.ind.calculate)       # the same call made on the member object itself
         return self.run.call(n, self.subject.calculate, self._name_arg(slot))
 
     def purge(self, slot=None):
         n = self.n_candles() * 6
         if self.kind == "indicator":
             return self.run.call(n, self.subject.purge)
+        if slot is not None and (self.cfg.get("hexital") or {}).get("via_member"):
+            return self.run.call(n, slot.ind.purge)       # the same call made on the member object itself
         return self.run.call(n, self.subject.purge, self._name_arg(slot))
 
     def recalculate(self, slot=None):
         n = self.n_candles() * 6
         if self.kind == "indicator":
             return self.run.call(n, self.subject.recalculate)
+        if slot is not None and (self.cfg.get("hexital") or {}).get("via_member"):
+            return self.run.call(n, slot.ind.recalculate)       # the same call made on the member object itself
         return self.run.call(n, self.subject.recalculate, self._name_arg(slot))
 
     def calculate_index(self, slot, index):
